@@ -39,6 +39,20 @@ CHECKS = {
              "characters, tabs and newlines; xml:space=preserve documents are outside.",
         technique="CrossHair symbolic execution (z3) of the real LMF writer and reader joined by an event bridge",
         ref='4 C02'),
+    'C03': dict(
+        text="Bounded symbolic model checking of the real export chain: add_lexical_resource (SQL model) -> "
+             "_export_lexicon in every export version 1.0-1.3 from 1.0-style and 1.1-style source documents "
+             "-> real LMF writer -> reader (event bridge) -> add to an empty database. The exported "
+             "resource must say what the document says (projection incl. frames per sense, every "
+             "definition with language and source sense, example languages, relation/count metadata, "
+             "dependencies, proposed ILIs) and the second database must be observationally identical to "
+             "the first; an installed extension must not leak into the export of its base; clashing ids "
+             "are refused.",
+        note=NOTE_COMMON + DB_NOTE + "Findings C03-frame-ids (open) and C04-tags (open) are excluded by "
+             "their predicates; extensions themselves are not exported (the property is about "
+             "non-extension lexicons).",
+        technique="CrossHair symbolic execution (z3) of add -> export -> dump -> load -> add over SQL model + event bridge",
+        ref='4 C03'),
     'C04': dict(
         text="Bounded symbolic model checking of scoping: (a) containment - every entity met in a two-step "
              "walk over the public API of Wordnet(lexicon, expand) belongs to the selection (or, in default "
